@@ -313,7 +313,8 @@ PROPS["C10"] = {
         "oneshot senders and the gRPC connection manager are recording sinks (delivery through the HTTP long-poll task / BiStreamManage is outside)",
         "get_md5(x) = 'md5:' ++ x; the clock read by the 500 ms tick is non-decreasing; deadlines range over {0 (= answer now), 100, 200}, tick times over {50, 150, 250} "
         "(the time-ordered listener map needs concrete keys), held md5s and contents are arbitrary strings",
-        "two long-poll listeners (one key / two keys), two gRPC clients, two config keys; every interleaving of 3 (quick) or 4 (thorough) actor messages",
+        "two long-poll listeners (one key / two keys), two gRPC clients, two config keys; every interleaving of 3 (quick) or 4 (thorough) actor messages, including "
+        "ConfigCmd::SetTmpValue (the tmp value a node sets after forwarding a publish to the leader); while a key holds a tmp value its listeners are owed the notification by the raft apply",
     ],
     "outside": "the task that awaits the oneshot and writes the HTTP response; gRPC push transport; the 500 ms granularity of 'no later than its timeout'",
     "explanation": "bounded symbolic execution of the real listener / subscriber source",
@@ -336,7 +337,7 @@ def _c13(tier, seed):
 
 
 _NAMING_ASSUME = [
-    "one naming Service (src/naming/service.rs) with two addresses; NamingActor-level state (client_instance_set, namespace index, empty-service clean-up, notifications) is outside",
+    "one naming Service (src/naming/service.rs) with two addresses",
     "inner_mem_cache::TimeoutSet is evaluated from the dependency's own source (version pinned by Cargo.lock)",
     "client ids range over {'', c1, c2}; time stamps are chosen from a concrete grid (keys of the time-ordered maps must be concrete); instance flags are symbolic",
 ]
@@ -349,9 +350,13 @@ for _pid, _fn, _txt in (("C11", _c11, "bookkeeping invariants of one service aft
         "smt": _fn,
         "trusted_base": PROPS["C09"]["trusted_base"],
         "assumptions": list(_NAMING_ASSUME),
-        "outside": "src/naming/core.rs (NamingActor: reverse maps per client connection, namespace/group index, service clean-up, cluster sync origins), gRPC connection manager, protection threshold filter (naming/filter.rs)",
+        "outside": "NamingActor parts other than the registration paths (namespace/group index queries, empty-service clean-up, cluster sync origins and process ranges), gRPC connection manager, protection threshold filter (naming/filter.rs)",
         "explanation": "bounded symbolic execution of the real Service source: " + _txt,
     }
+for _pid in ("C11", "C12"):
+    PROPS[_pid]["files"] = ["src/naming/service.rs", "src/naming/model.rs", "src/naming/core.rs", "src/naming/service_index.rs"]
+    PROPS[_pid]["assumptions"].append("actor level (s11_2 / s12_2): NamingActor::{update_instance, remove_instance, remove_client_instance} are evaluated from source on one service with two "
+                                      "addresses, connections c1 / c2, single node (no process range); subscriber / cluster notifications are sinks; get_hash_value is a constant")
 PROPS["C13"]["assumptions"].append("health time-out 15, instance time-out 30, clock on the grid %s; removal is two-phase (the tick that finds an instance unhealthy and overdue queues it, the next tick removes it)" % "[0,5,14,16,29,31,46,62]")
 
 
@@ -371,9 +376,12 @@ PROPS["C05"]["assumptions"] = [
     "quick_protobuf's Writer / BytesReader primitives and tokio::fs::File are modelled (rs2smt/iomodel.py); the generated message code of /repo (log.rs), the DTO conversions, "
     "FileMessageReader, read_varint64 and inner_sizeof_varint are evaluated from source",
     "term < 2^21, vote and log-range start < 2^14, last-applied < 2^59 (each symbolic integer forks on its varint size class; 0x0800000000000000 is the legacy header placeholder)",
-    "one or two hard-state writes, at most one log range, node_addrs / member lists empty",
+    "s05_1: one or two hard-state writes, at most one log range, node_addrs / member lists empty",
+    "s05_2: the RaftIndexManager actor's Handler<RaftIndexRequest> and write_* methods are evaluated from source; the actor future (async block .into_actor().map().wait()) "
+    "is run to completion at the call (ctx.wait blocks the mailbox until it resolves); do_notify_membership is outside; requests range over SaveHardState(term < 2^14, vote < 2^7), "
+    "SaveMember [1,2] with addresses, SaveMember [1] joint [1,3], AddNodeAddr 3, SaveLogs(one range), SaveLastAppliedLog(< 2^59)",
 ]
-PROPS["C05"]["outside"] = "RaftIndexManager actor wrapper; membership / address maps with entries; crash points between the writes (C04)"
+PROPS["C05"]["outside"] = "FileStore (RaftStorage) wrapper around the actor; crash points between the writes of the index file; concurrent senders' mailbox order (any order is a sequence: covered up to the bound)"
 
 
 def _c01(tier, seed):
@@ -386,7 +394,11 @@ def _c01(tier, seed):
 PROPS["C01"]["kani"] = []
 PROPS["C01"]["smt"] = _c01
 PROPS["C01"]["trusted_base"] = PROPS["C05"]["trusted_base"][:1] + ["z3 5.1.0"]
+PROPS["C01"]["files"] = list(PROPS["C01"].get("files", [])) + ["src/raft/filestore/raftapply.rs"]
+PROPS["C01"]["outside"] = "the seven components' own snapshot / log handlers (what they do with the records and with the load-complete notification); RaftLogManager's Load implementation"
 PROPS["C01"]["assumptions"] = [
+    "s01_2: the start-up chain of StateApplyManager is evaluated from source; index / snapshot / log managers and the data handler are recording sinks with symbolic answers "
+    "(catalogue with 0 or 1 snapshot ending at E >= 1, last-applied index A arbitrary); actor futures run to completion at the call",
     "quick_protobuf Writer / BytesReader primitives and tokio::fs::File are modelled (rs2smt/iomodel.py: open without truncate keeps the old content); SnapshotWriter, SnapshotReader, "
     "the DTO conversions, the generated message code and MessageBufReader are evaluated from source",
     "one tree name, 1-byte keys and values (symbolic), header fields in 1..=127, member / address lists empty; 0 or 2 (thorough: 0..=3) records left by an earlier build of the same id",
@@ -413,6 +425,9 @@ _LOG_S_ASSUME = [
     "models of rs2smt/iomodel.py (in-memory tokio::fs with POSIX regular-file semantics, quick_protobuf primitives, Cursor + binrw big-endian header)",
     "the index interval is read from the file header: the scenario patches it to 2 in a freshly initialised file (any value >= 1 is a valid file), so index boundaries occur within 3-4 records",
     "payload lengths 1-2; payload bytes symbolic in {1,2,3} in the append scenario, concrete and pairwise different in the truncation / crash scenarios",
+    "the preallocated length is what init finds on disk: the append scenario places the preallocation boundary 5..25 bytes into the data area (real scale: 1 MiB steps); "
+    "the file's first index is 0 or 1 (not a multiple of the interval)",
+    "on every run sampled discharged paths are executed on the real LogInnerManager (harness/hist_log.rs): write results, visible entries and all file bytes must equal the encoding's",
 ]
 PROPS["C02"]["smt"] = _c02_smt
 PROPS["C02"]["assumptions"] = PROPS["C02"]["assumptions"] + _LOG_S_ASSUME
@@ -427,6 +442,7 @@ PROPS["C04"] = {
     "assumptions": _LOG_S_ASSUME + [
         "crash model of the property: process death with the OS surviving, every write / set_len call atomic and applied in program order; flush is a no-op",
         "one log file: after a crash behind any prefix of its file mutations the log reopens and shows the state of the last acknowledged operation or of the operation in flight",
+        "creation of a new log file (s04_2): a crash behind any prefix of init's own mutations leaves a file that reopens as an empty log and accepts the first append",
     ],
     "outside": "the index (catalogue) file and snapshot files, and every order between different actors' files (catalogue update vs. new log file, snapshot completion): those sequences "
                "exist only as actor message schedules",
